@@ -275,15 +275,19 @@ func c05Equality(c *Ctx, arms map[int64]OpArm) {
 		// strings: Go == on the two operands
 		ps := append([]Pin{pinTypeCase(ops[0], "string")}, base...)
 		r := c.foldWith(f, 1, ps...)
-		okStr := false
+		okStr := len(r.Returns) > 0
 		for _, ret := range r.Returns {
+			one := false
 			if bo, ok := ret.Results[0].(*ssa.BinOp); ok && bo.Op == token.EQL {
 				if c.derivedFrom(bo.X, ops[0]) && c.derivedFrom(bo.Y, ops[1]) || c.derivedFrom(bo.X, ops[1]) && c.derivedFrom(bo.Y, ops[0]) {
-					okStr = true
+					one = true
 				}
 			}
+			if !one {
+				okStr = false
+			}
 		}
-		c.R.Check(re, fe.name+":string", pos, okStr, "string equality must be Go `==` on the two operands' strings")
+		c.R.Check(re, fe.name+":string", pos, okStr, "string equality must be Go `==` on the two operands' strings on every path of the string arm (no numeric or other coercion first: '1.0' and '1' are different strings)")
 	}
 	// strict: same-kind gate
 	const rs = "C05.strict-same-kind"
